@@ -22,7 +22,11 @@ for ROOT in dict.fromkeys(roots):
             vid = v + tag
             dst = os.path.join(VERIF, "benign", "%s-%s" % (pid, vid))
             os.makedirs(dst, exist_ok=True)
-            shutil.copyfile(os.path.join(out, v + ".patch.diff"), os.path.join(dst, "patch.diff"))
+            rebased = None
+            if os.path.exists(os.path.join(dst, "meta.json")):
+                rebased = json.load(open(os.path.join(dst, "meta.json"))).get("rebased")
+            if not rebased:  # a patch re-derived after a repair of /repo is kept as committed
+                shutil.copyfile(os.path.join(out, v + ".patch.diff"), os.path.join(dst, "patch.diff"))
             meta = json.load(open(os.path.join(out, v + ".meta.json")))
             r = subprocess.run([os.path.join(VERIF, "tools", "benign_eval.py"), os.path.join(dst, "patch.diff"), pid], stdout=subprocess.PIPE, stderr=subprocess.STDOUT)
             verdict = r.stdout.decode().splitlines()[0] if r.stdout else "?"
@@ -32,6 +36,7 @@ for ROOT in dict.fromkeys(roots):
                 "source": "written by an independent sub-agent that saw only the property text and a private worktree",
                 "confirmed": {"how": "tools/confirm_benign.sh %s %s in the scratch worktree %s/%s/wt (git apply; optional equivalence script with and without the patch; full pytest suite; git checkout)" % (pid, v, ROOT, pid), "tests_with_patch": c["tests_summary"], "unexpected_test_failures": c["unexpected_test_failures"], "equiv_same_digest": c.get("equiv_same_digest"), "native_rebuild": bool(c.get("native_rebuild"))},
                 "check": {"command": "tools/benign_eval.py benign/%s-%s/patch.diff %s" % (pid, vid, pid), "verdict": verdict},
+                **({"rebased": rebased} if rebased else {}),
             }, open(os.path.join(dst, "meta.json"), "w"), indent=1)
             rows.append((pid, vid, verdict, (meta.get("kind") or "")[:60].replace("\n", " "), (meta.get("summary") or "")[:110].replace("\n", " ")))
 with open(os.path.join(VERIF, "benign", "INDEX.md"), "w") as f:
